@@ -17,7 +17,7 @@ func VerifNewSkippingPNGen(initial, initialPeriod, maxPeriod protocol.PacketNumb
 	return &VerifPNGen{g: newSkippingPacketNumberGenerator(initial, initialPeriod, maxPeriod)}
 }
 
-func (v *VerifPNGen) Peek() protocol.PacketNumber       { return v.g.Peek() }
+func (v *VerifPNGen) Peek() protocol.PacketNumber        { return v.g.Peek() }
 func (v *VerifPNGen) Pop() (bool, protocol.PacketNumber) { return v.g.Pop() }
 
 // SkipState reads the skipping generator's fields (observation only): the harness derives
